@@ -7,11 +7,18 @@ Desc(P) == [l \in DOMAIN P.lev |-> [idx |-> P.lev[l].idx, file |-> FileOf(P.lev[
 
 NonMonoP(P) == \E l \in DOMAIN P.lev : \E f \in DOMAIN P.lev[l].files : \E i, j \in DOMAIN P.lev[l].files[f] :
                   i < j /\ P.lev[l].files[f][i].idx > P.lev[l].files[f][j].idx
-VClass(v) == IF v = None THEN "None" ELSE IF \E i \in DOMAIN v : v[i] = "zz" THEN "with-unknown" ELSE "names"
+\* positions of a selection in its input's field list: a contiguous block listed out of order is a class of its own
+PosSet(v, F) == {PosIn(F, v[i]) : i \in DOMAIN v}
+BlockUnordered(v, F) == /\ Len(v) >= 3 /\ \A i \in DOMAIN v : v[i] \in Rng(F)
+                        /\ (CHOOSE x \in PosSet(v, F) : \A y \in PosSet(v, F) : x >= y) - (CHOOSE x \in PosSet(v, F) : \A y \in PosSet(v, F) : x <= y) + 1 = Len(v)
+                        /\ \E i, j \in DOMAIN v : i < j /\ PosIn(F, v[i]) > PosIn(F, v[j])
+VClassF(v, F) == IF v = None THEN "None" ELSE IF \E i \in DOMAIN v : v[i] = "zz" THEN "with-unknown"
+                 ELSE IF BlockUnordered(v, F) THEN "block-out-of-order" ELSE "names"
+VClass(v) == VClassF(v, IF v = v1 THEN F1 ELSE F2)
 Sig == <<rel, IF pc = "done" /\ outcome = "ok" THEN mode ELSE "refused", Len(in1.lev),
          IF NonMonoP(in1) THEN "first-nonmono" ELSE "first-mono",
          IF NonMonoP(in2) THEN "second-nonmono" ELSE "second-mono",
-         VClass(v1), VClass(v2),
+         VClassF(v1, F1), VClassF(v2, F2),
          IF \E i, j \in DOMAIN sched : i < j /\ sched[i] > sched[j] THEN "reordered-finish" ELSE "fifo-finish">>
 Scenario == [prop |-> "C06", sig |-> Sig, f1 |-> F1, f2 |-> F2, cells |-> cells, rel |-> rel,
              in1 |-> Desc(in1), in2 |-> Desc(in2),
